@@ -4,6 +4,7 @@ import Prom.Lemmas.HistCuts
 import Prom.Lemmas.HistTags
 import Prom.Lemmas.HistSemantics
 import Prom.Lemmas.HandoffHist
+import Prom.Gen.Orderings
 /-
 C02 — Every histogram snapshot is one consistent cut of the observations.
 
@@ -381,5 +382,31 @@ theorem replayed_publish_happens_before_collect {tr : List Conc.Item} {s s' : HM
     is built by `Reach.step`; here the simplest instance — the initial state is reachable and the
     statement is about all of its (zero) snapshots, and one spawn keeps it reachable. -/
 example : Reach 2 { Hp.init with tasks := [Task.colWant] } := Reach.step Reach.init (Step.spawnCol Hp.init [] [] rfl)
+
+
+/-! ### the orderings the source passes NOW (regenerated table) -/
+
+/-- the orderings the proofs and the replay machine need, keyed like `Gen.orderingSites`
+    (file, type, fn, occurrence of `Ordering::` within that fn): observers claim with at least
+    Acquire and publish with at least Release (`observe`, `LocalHistogramCore::flush`); the collector
+    flips with at least AcqRel, spins with at least Acquire and reads-and-resets the cold cells with at
+    least AcqRel (`proto`); the f64 add loop loads with at least Acquire and exchanges with at least
+    Release -/
+def requiredOrderings : List (String × String × String × Nat × String) :=
+  [("histogram.rs", "HistogramCore", "observe", 0, "Acquire"), ("histogram.rs", "HistogramCore", "observe", 1, "Release"),
+   ("histogram.rs", "HistogramCore", "proto", 0, "AcqRel"), ("histogram.rs", "HistogramCore", "proto", 1, "Acquire"),
+   ("histogram.rs", "HistogramCore", "proto", 3, "AcqRel"), ("histogram.rs", "HistogramCore", "proto", 4, "AcqRel"),
+   ("histogram.rs", "LocalHistogramCore", "flush", 0, "Acquire"), ("histogram.rs", "LocalHistogramCore", "flush", 1, "Release"),
+   ("atomic64.rs", "AtomicF64", "inc_by", 0, "Acquire"), ("atomic64.rs", "AtomicF64", "inc_by", 1, "Release")]
+
+/-- **source_orderings_suffice** — over the table REGENERATED from `src/histogram.rs` and
+    `src/atomic64.rs` on every run (`translate/orderings.py`): at every call site the hand-off needs,
+    the ordering the source passes is at least the required one (`handoff_hb` needs the publish to be a
+    release and the spin an acquire; the replay machine demands the same orderings of every event). A
+    weakened ordering in the source changes the table and this closed fact no longer checks. -/
+theorem source_orderings_suffice :
+    requiredOrderings.all (fun r => Gen.orderingSites.any fun s =>
+      s.file == r.1 && s.ty == r.2.1 && s.fn == r.2.2.1 && s.idx == r.2.2.2.1 && Conc.ordGe s.ord r.2.2.2.2) = true := by
+  decide +kernel
 
 end Prom.C02
